@@ -196,7 +196,9 @@ def fault_oracle(sc, tr, extra):
 def type_family(rep):
     from . import simnet as S
     cases = []
-    text_args = ["plain", "ünï €", "\U0001F600" * 3, "", b"bytes", bytearray(b"ba"), memoryview(b"mv"), 7, None, ["l"], 1.5]
+    # (text that has no UTF-8 encoding -- unpaired surrogates, as os.fsdecode produces them -- cannot be sent as a text message)
+    text_args = ["plain", "ünï €", "\U0001F600" * 3, "", b"bytes", bytearray(b"ba"), memoryview(b"mv"), 7, None, ["l"], 1.5,
+                 "caf\udce9", "\ud800", "ok \udfff end", "\ud83d", "a" * 200 + "\udc80", "\ufeffbom first", "\ufffd\uffff"]
     bin_args = [b"", b"bytes", bytes(range(256)), "str", bytearray(b"ba"), memoryview(b"mv"), 7, None, [1]]
     results = []
 
@@ -232,7 +234,8 @@ def type_family(rep):
                             getattr(ws, meth)(*args, **kwargs)
                             exc = None
                         except Exception as e:
-                            exc = type(e).__name__
+                            # (UnicodeEncodeError and the like are ValueErrors)
+                            exc = "ValueError" if isinstance(e, ValueError) else "TypeError" if isinstance(e, TypeError) else type(e).__name__
                         after = [bytes(a) if isinstance(a, (bytes, bytearray, memoryview)) else a for a in args]
                         res.append((exc, [it for it in run.trace[n0:] if it[0] in (1, 2)], snap == after))
         finally:
@@ -266,7 +269,13 @@ def type_family(rep):
         rep.add_case(("types", meth, type(a).__name__, repr(a)[:30]))
         if meth == "send_text":
             ok_type = isinstance(a, str)
-            exp_payload = a.encode("utf-8") if ok_type else None
+            if ok_type:
+                try:
+                    exp_payload = a.encode("utf-8")
+                except UnicodeEncodeError:
+                    ok_type, exp_payload = False, None
+            else:
+                exp_payload = None
             op = 1
         elif meth == "send_json":
             try:
